@@ -25,17 +25,17 @@ Definition M_ANIS := 40.  Definition M_ANGLES := 41.
 
 Inductive entry :=
 | EVario | EVarioAxis | EStdBins | EFieldCall | EPostField | EApplyMNT | ERemoveTNM | ETransform
-| ESRFCall | EKrigeCond | EKrigeCall | ECondSRF | EFitVario | ENormalizer | EGenerator | EArrayFn | ECovModel.
+| ESRFCall | EKrigeCond | EKrigeCall | ECondSRF | EFitVario | ENormalizer | EGenerator | EArrayFn | ECovModel | EGeoTool | EModelEval.
 
 Definition entries : list entry :=
   [EVario; EVarioAxis; EStdBins; EFieldCall; EPostField; EApplyMNT; ERemoveTNM; ETransform;
-   ESRFCall; EKrigeCond; EKrigeCall; ECondSRF; EFitVario; ENormalizer; EGenerator; EArrayFn; ECovModel].
+   ESRFCall; EKrigeCond; EKrigeCall; ECondSRF; EFitVario; ENormalizer; EGenerator; EArrayFn; ECovModel; EGeoTool; EModelEval].
 
 Definition entry_id (e : entry) : nat :=
   match e with
   | EVario => 0 | EVarioAxis => 1 | EStdBins => 2 | EFieldCall => 3 | EPostField => 4 | EApplyMNT => 5
   | ERemoveTNM => 6 | ETransform => 7 | ESRFCall => 8 | EKrigeCond => 9 | EKrigeCall => 10
-  | ECondSRF => 11 | EFitVario => 12 | ENormalizer => 13 | EGenerator => 14 | EArrayFn => 15 | ECovModel => 16
+  | ECondSRF => 11 | EFitVario => 12 | ENormalizer => 13 | EGenerator => 14 | EArrayFn => 15 | ECovModel => 16 | EGeoTool => 17 | EModelEval => 18
   end.
 
 Definition entry_of_id (n : nat) : option entry := nth_error entries n.
@@ -52,9 +52,10 @@ Definition dims (e : entry) : list nat :=
       (* data f64/other; ndarray / masked array without mask / masked array with mask;
          missing values present; no_data given; axis x (reshape is a view) / y (reshape copies) *)
   | EStdBins    => [3; 2; 2; 2; 4]          (* pos layout; latlon; geo_scale; structured; none / bin_no / max_dist / both given *)
-  | EFieldCall  => [3; 4; 2; 3; 2; 2; 3]
+  | EFieldCall  => [3; 4; 2; 3; 2; 2; 4]
       (* pos layout; field none / layout 0,1,2; post_process; store True/"a"/False; mean+trend+normalizer;
-         structured; history: none / earlier call same pos / earlier call other pos *)
+         structured; history: none / earlier call same pos / earlier call other pos / earlier call and now
+         called WITHOUT pos (the stored positions are used again) *)
   | EPostField  => [3; 2; 3; 2]             (* field layout; process; save field/"a"/no; mean+trend+normalizer *)
   | EApplyMNT   => [2; 3; 2; 2; 2; 2]       (* pos; field layout; check_shape; stacked; mean+trend+norm; structured *)
   | ERemoveTNM  => [2; 3; 2; 2; 2; 2]
@@ -63,16 +64,16 @@ Definition dims (e : entry) : list nat :=
          process; store True/"b"/False; keep_mean; trend+normalizer set; numeric arguments default / two
          non-default sets (shift, lmbda=0, conn, bounds, explicit value and threshold ARRAYS, user kwargs);
          source field made by SRF / Krige / a caller array stored with post_process=False *)
-  | ESRFCall    => [3; 3; 2; 2; 3; 2; 4; 3]
+  | ESRFCall    => [3; 3; 2; 2; 3; 2; 4; 4]
       (* generator RandMeth/VectorField/Fourier; pos layout; structured; post_process; store; mean+..;
          point_volumes none/f64 array/other array/non-zero scalar; history *)
   | EKrigeCond  => [3; 3; 3; 4; 2; 2; 2]
       (* cond_pos layout; cond_val layout; ext_drift none/f64/other; cond_err nugget/scalar/f64 array/other
          array; fit_variogram; mean+trend+normalizer; constructor / set_condition on an existing object *)
-  | EKrigeCall  => [3; 2; 4; 2; 2; 2; 3; 2; 2; 3]
+  | EKrigeCall  => [3; 2; 4; 2; 2; 2; 3; 2; 2; 4]
       (* pos layout; structured; ext_drift none / layout 0,1,2; only_mean; return_var; post_process;
          store True/["a","b"]/False; chunked; mean+trend+normalizer; history *)
-  | ECondSRF    => [3; 2; 2; 3; 2; 2; 2; 3]
+  | ECondSRF    => [3; 2; 2; 3; 2; 2; 2; 4]
       (* pos layout; structured; post_process; store True/["x","y","z"]/False; krige_store; mean+..;
          nugget>0; history none / same pos (reuse branch) / other pos *)
   | EFitVario   => [3; 3; 4; 2; 2; 2]       (* x layout; y layout; weights none/"inv"/f64/other; directional; latlon; r2 *)
@@ -80,6 +81,15 @@ Definition dims (e : entry) : list nat :=
   | EGenerator  => [3; 2; 2; 2]             (* generator; pos f64/other; nugget; non-default mean_u / sampling / mode grid *)
   | EArrayFn    => [8; 2; 3]
   | ECovModel   => [6; 4; 5; 5; 4]
+  | EGeoTool    => [16; 3; 3]
+      (* public helpers of gstools.tools called directly: set_angles, set_anis, matrix_* / rotated_main_axes,
+         generate_grid, generate_st_grid, format_struct_pos_dim, format_struct_pos_shape, format_unstruct_pos_shape,
+         ang2dir, latlon2pos, pos2latlon, chordal_to_great_circle, great_circle_to_chordal, inc_gamma/exp_int/..,
+         tplstable_cor, tpl_*_spec_dens; layout class of the array; options default / temporal with time_scale <> 1 and
+         radius <> 1 / second non-default set *)
+  | EModelEval  => [7; 4; 3]
+      (* CovModel.isometrize, anisometrize, *_spatial, variogram/covariance/.., *_yadrenko, spectral functions, *_axis;
+         model plain / temporal / latlon / latlon+temporal (time anisotropy <> 1); layout class of the array *)
       (* gstools.transform.array_discrete,boxcox,zinnharvey,force_moments,to_lognormal,to_uniform,to_arcsin,
          to_uquad; data f64/other; numeric arguments default / two non-default sets *)
   end.
@@ -88,7 +98,7 @@ Definition nargs (e : entry) : nat :=
   match e with
   | EVario => 7 | EVarioAxis => 2 | EStdBins => 1 | EFieldCall => 2 | EPostField => 1 | EApplyMNT => 2
   | ERemoveTNM => 2 | ETransform => 2 | ESRFCall => 2 | EKrigeCond => 4 | EKrigeCall => 2 | ECondSRF => 1
-  | EFitVario => 3 | ENormalizer => 1 | EGenerator => 3 | EArrayFn => 3 | ECovModel => 3
+  | EFitVario => 3 | ENormalizer => 1 | EGenerator => 3 | EArrayFn => 3 | ECovModel => 3 | EGeoTool => 2 | EModelEval => 1
   end.
 
 Definition nz (n : nat) : bool := negb (n =? 0).
@@ -152,7 +162,8 @@ Definition del_cfields : list prim :=
    Since /repo 002fae9 the pos setter stores COPIES (np.array(...).reshape / np.array per axis): the stored
    positions never alias the caller's arrays, whatever their layout class [lay]. *)
 Definition set_pos (lay : nat) (structured : bool) (hist : nat) (dels : list prim) : list prim :=
-  [New 10 1 [0]; Alias 10 10; Store A_POS 10] ++ when (hist =? 2) dels
+  (if hist =? 3 then [Load 10 A_POS]       (* call without pos: the stored positions are read again *)
+   else [New 10 1 [0]; Alias 10 10; Store A_POS 10] ++ when (hist =? 2) dels)
   ++ (if structured then [New 11 5 [10]] else [Alias 11 10]) ++ [New 12 6 [11]].
 
 Definition store_name (s : nat) (dflt custom : attr) : option attr :=
@@ -289,7 +300,7 @@ Definition p_cond_srf (fx : bool) (c : list nat) : list prim :=
   let n0 := if st =? 1 then C_X else C_FIELD in
   let n1 := if st =? 1 then C_Y else C_RAWF in
   let n2 := if st =? 1 then C_Z else C_RAWK in
-  let reuse := (hist =? 1) && negb (st =? 1) in
+  let reuse := ((hist =? 1) || (hist =? 3)) && negb (st =? 1) in
   set_pos (dg c 0) (nz (dg c 1)) hist (del_fields ++ del_cfields)
   ++ [New 13 1 [12]; Alias 13 13]                                    (* raw random field *)
   ++ (if reuse then [Load 14 n2; Load 15 A_KVAR]
@@ -378,6 +389,33 @@ Definition p_covmodel (c : list nat) : list prim :=
          ++ [Load 14 M_ANGLES] ++ set_angles_p (Some 14) true latlon temporal
   end.
 
+(* ---- helpers of gstools.tools called directly.  Argument 0: the array, argument 1: the time axis of
+   generate_st_grid.  Results are new arrays except for the three format_* functions, which hand back
+   (views of) the caller's arrays. *)
+Definition p_geo_tool (c : list nat) : list prim :=
+  let fn := dg c 0 in let lay := dg c 1 in let f64 := lay <? 2 in
+  match fn with
+  | 0 => asarr 10 0 f64 ++ [Alias 10 10; New 11 1 [10]; Ret 11]             (* set_angles: np.pad always *)
+  | 1 => [New 10 1 [0]; Alias 10 10; Ret 10]                                  (* set_anis: np.array *)
+  | 2 => asarr 10 0 f64 ++ [New 10 1 [10]; New 11 2 [10]; Ret 11]            (* rotation / stretching matrices *)
+  | 3 => [New 11 1 [0]; Alias 11 11; Ret 11]                                  (* generate_grid *)
+  | 4 => conv 12 1 0 ++ (if dg c 2 =? 1 then [New 10 1 [0]] else asarr 10 0 f64 ++ [Alias 10 10])
+         ++ [New 11 2 [10; 12]; Ret 11]                                       (* generate_st_grid *)
+  | 5 => conv 10 0 lay ++ [Ret 10]                                            (* format_struct_pos_dim *)
+  | 6 => [New 12 1 [0]] ++ conv 10 0 lay ++ [Ret 10]                          (* format_struct_pos_shape *)
+  | 7 => asarr 10 0 f64 ++ [Alias 10 10; Ret 10]                              (* format_unstruct_pos_shape *)
+  | 8 => asarr 10 0 f64 ++ [Alias 10 10; New 11 1 [10]; Write 11 2 [10]; Ret 11]   (* ang2dir *)
+  | 9 | 10 => conv 10 0 lay ++ [New 11 1 [10]; New 12 2 [11; 10]; Ret 12]     (* latlon2pos, pos2latlon *)
+  | 11 | 12 => [New 11 1 [0]; Ret 11]                                         (* chordal <-> great circle *)
+  | 13 => asarr 10 0 f64 ++ [New 10 1 [10]; New 11 2 [10]; Write 11 3 [10]; Ret 11]   (* inc_gamma, exp_int, .. *)
+  | 14 => [New 10 1 [0]; Write 10 2 []; New 11 3 [10]; Write 11 4 [10]; Ret 11]       (* tplstable_cor *)
+  | _ => asarr 10 0 f64 ++ [New 12 1 [10]; New 11 2 [12]; Write 11 3 [12]; Ret 11]    (* tpl_*_spec_dens *)
+  end.
+
+(* ---- evaluation methods of a CovModel on caller arrays: np.asarray(...).reshape(...) views, new results *)
+Definition p_model_eval (c : list nat) : list prim :=
+  conv 10 0 (dg c 2) ++ [New 11 1 [10]; New 12 2 [11]; Ret 12].
+
 Definition prog (fx : bool) (e : entry) (c : list nat) : list prim :=
   match e with
   | EVario => p_vario fx c
@@ -396,6 +434,8 @@ Definition prog (fx : bool) (e : entry) (c : list nat) : list prim :=
   | EGenerator => p_generator c
   | EArrayFn => p_array_fn c
   | ECovModel => p_covmodel c
+  | EGeoTool => p_geo_tool c
+  | EModelEval => p_model_eval c
   end.
 
 Definition program := prog true.        (* the code as it is now *)
@@ -486,7 +526,7 @@ Lemma wf_all_true :
   forallb (fun e => forallb (fun c => wf_entry true e c && wf_entry false e c) (all_cfgs (dims e))) entries = true.
 Proof. vm_compute. reflexivity. Qed.
 
-Lemma total_cfgs_value : total_cfgs = 59868%Z.
+Lemma total_cfgs_value : total_cfgs = 63840%Z.
 Proof. vm_compute. reflexivity. Qed.
 
 Lemma cfg_count_spec e : Z.of_nat (length (all_cfgs (dims e))) = cfg_count e.
